@@ -209,7 +209,9 @@ def check_case(case):
              'n_extra': len(extra), 'closure': len(ref)}))
     setdig = core.digest(sorted(nm.show(x) for x in counts))[:16]
     info['setdig'] = setdig
-    return ['ok', len(obs), len(counts), setdig, out.get('steps')], viols, info
+    # (the step count is a statistic, not part of the outcome: a correct
+    # memo inside the package may make a repeated call cheaper)
+    return ['ok', len(obs), len(counts), setdig], viols, info
 
 
 # ------------------------------------------------------------- generation
